@@ -367,8 +367,39 @@ def pi_interval(p):
     return (lo, hi)
 
 
+def const_float(p):
+    """Floating-point value of a closed constant value number (rationals, pi, elementary functions of such), else None.
+    Used only to fold comparisons between constants with a clear margin, as CasADi's own constant folding does."""
+    import math
+    total = 0.0
+    for mono, c in p.t.items():
+        term = float(c)
+        for a, e in mono:
+            if a.kind == "sym" and a.key[0] == "pi":
+                v = math.pi
+            elif a.kind in ("cos", "sin", "tan", "acos", "asin", "atan", "sqrt", "exp", "fabs") and isinstance(a.key[0], Poly):
+                u = const_float(a.key[0])
+                if u is None:
+                    return None
+                try:
+                    v = getattr(math, a.kind)(u)
+                except (ValueError, OverflowError):
+                    return None
+            else:
+                return None
+            if v == 0 and e < 0:
+                return None
+            term *= v ** e
+        total += term
+    return total
+
+
 def _cmp(name, x, y):
     cx, cy = x.const_value(), y.const_value()
+    if (cx is None or cy is None) and name in ("lt", "le"):
+        d = const_float(y - x)
+        if d is not None and abs(d) > 1e-9:
+            return Poly.const(1 if d > 0 else 0)
     if (cx is None or cy is None) and name in ("lt", "le"):
         iv = pi_interval(y - x)
         if iv is not None:
